@@ -292,7 +292,11 @@ impl GlobWalker {
                 for (position, candidate) in path
                     .components()
                     .filter_map(|component| match component {
-                        Component::Normal(component) => Some(CandidatePath::from(component)),
+                        // `.` and `..` in the prefix of a glob are literal components with their own
+                        // component programs.
+                        Component::Normal(_) | Component::CurDir | Component::ParentDir => {
+                            Some(CandidatePath::from(component.as_os_str()))
+                        },
                         _ => None,
                     })
                     .skip(depth)
